@@ -440,6 +440,13 @@ func (self *Analyzer) importItem(node pAst.ImportStatement) ast.AnalyzedImport {
 				if prev := self.currentModule.addType(item.Ident, newTypeWrapper(typ.Type.SetSpan(item.Span), false, item.Span, false)); prev != nil {
 					self.error(fmt.Sprintf("Type '%s' already exists in current scope", item.Ident), nil, item.Span)
 				}
+
+				// the import stays part of the analysed program (as it does for types of builtin modules)
+				toImport = append(toImport, ast.AnalyzedImportValue{
+					Ident: pAst.NewSpannedIdent(item.Ident, item.Span),
+					Type:  typ.Type.SetSpan(item.Span),
+					Kind:  pAst.IMPORT_KIND_TYPE,
+				})
 				continue
 			}
 
@@ -460,6 +467,11 @@ func (self *Analyzer) importItem(node pAst.ImportStatement) ast.AnalyzedImport {
 					self.error(fmt.Sprintf("Template '%s' already exists in current scope", item.Ident), nil, item.Span)
 				}
 
+				toImport = append(toImport, ast.AnalyzedImportValue{
+					Ident: pAst.NewSpannedIdent(item.Ident, item.Span),
+					Kind:  pAst.IMPORT_KIND_TEMPLATE,
+					Type:  nil,
+				})
 				continue
 			}
 
